@@ -163,7 +163,7 @@ class C02(Sim):
             "non-trivial = >= 1 build and >= 1 observation or re-wrap of a mesh with at least edges")
     FAULT_KINDS = ["rewrap", "config_flip"]
     PROBES = ["invalid_edge_filtered", "dense_edge_attr", "sparse_edge_attr", "numpy_flavour", "tuple_flavour", "hex_cells", "tet_cells",
-              "declared_faces_on_volume", "polygon_face", "file_path", "from_arrays_path", "rewrap", "switch_off_build", "query_script", "2d_padded", "peek_dimensionality"]
+              "declared_faces_on_volume", "polygon_face", "file_path", "from_arrays_path", "rewrap", "switch_off_build", "query_script", "2d_padded", "peek_dimensionality", "input_lists_reused", "two_stage_build"]
     QUICK_RUNS = 4000
     THOROUGH_RUNS = 400000
     BLOCK = 40
@@ -193,6 +193,7 @@ class C02(Sim):
         M.config.complete_edges_from_faces = True
         M.config.complete_faces_from_cells = True
         self.nbuild = self.nobs = 0
+        self._shared_inputs = {}
         self.seq = []
         s = self.spec
         if s["cells"] and len(s["cells"][0]) == 8:
@@ -212,6 +213,8 @@ class C02(Sim):
         s = self.spec
         n = len(s["points"])
         out = ["raw_class", "instanciate"]
+        if s["cells"] and s["faces"] and not s["eattr"] and not s["edges"]:
+            out.append("two_stage")
         ar = {len(f) for f in s["faces"]}
         car = {len(c) for c in s["cells"]}
         in_range = all(0 <= a < n and 0 <= b < n for a, b in s["edges"])
@@ -239,9 +242,9 @@ class C02(Sim):
             return {"c": c, "op": "flip", "key": k, "value": not self.sw[k]}
         if c == "builder" or not self.slots:
             path = r.choice(self._paths())
-            fl = r.choice(cfg["flavours"]) if path in ("raw_class", "instanciate") else ("numpy" if path == "from_arrays" else "file")
+            fl = r.choice(cfg["flavours"]) if path in ("raw_class", "instanciate", "two_stage") else ("numpy" if path == "from_arrays" else "file")
             return {"c": "builder", "op": "build", "path": path, "flavour": fl, "slot": "m%d" % self.nbuild, "pad2d": r.chance(0.5),
-                    "peek": r.choice([None, None, "early", "late"])}
+                    "peek": r.choice([None, None, "early", "late"]), "reuse": r.chance(0.4)}
         slot = r.choice(sorted(self.slots))
         if c == "rewrapper":
             return {"c": c, "op": r.choice(["rewrap_same_class", "rewrap_instanciate", "prepare_again"]), "slot": slot, "dst": slot + "r"}
@@ -260,17 +263,28 @@ class C02(Sim):
         return True
 
     # ------------------------------------------------------------------ building
-    def _fill_raw(self, flavour, peek=None):
+    def _rows(self, kind, flavour, reuse):
+        """the caller's input list for one element kind; with `reuse` the SAME list object (and row objects) is handed to every construction"""
+        if not reuse:
+            return rows(self.spec[kind], flavour)
+        key_ = (kind, flavour)
+        if key_ not in self._shared_inputs:
+            self._shared_inputs[key_] = rows(self.spec[kind], flavour)
+        else:
+            self.probes["input_lists_reused"] += 1
+        return self._shared_inputs[key_]
+
+    def _fill_raw(self, flavour, peek=None, reuse=False, only=None):
         """peek: the caller reads the (lazily cached) dimensionality of the raw data while filling it - a legal history"""
         from mouette.mesh.mesh_data import RawMeshData
         s = self.spec
         d = RawMeshData()
-        d.vertices += rows(s["points"], flavour)
+        d.vertices += self._rows("points", flavour, reuse)
         if peek == "early":
             d.dimensionality
             self.probes["peek_dimensionality"] += 1
         if s["edges"]:
-            d.edges += rows(s["edges"], flavour)
+            d.edges += self._rows("edges", flavour, reuse)
         if s["eattr"]:
             ea = s["eattr"]
             a = d.edges.create_attribute(ea["name"], float if ea["type"] == "float" else int, 1, dense=ea["dense"])
@@ -278,9 +292,9 @@ class C02(Sim):
                 a[int(i)] = v
             self.probes["dense_edge_attr" if ea["dense"] else "sparse_edge_attr"] += 1
         if s["faces"]:
-            d.faces += rows(s["faces"], flavour)
-        if s["cells"]:
-            d.cells += rows(s["cells"], flavour)
+            d.faces += self._rows("faces", flavour, reuse)
+        if s["cells"] and only != "no_cells":
+            d.cells += self._rows("cells", flavour, reuse)
         if peek == "late":
             d.dimensionality
             self.probes["peek_dimensionality"] += 1
@@ -291,12 +305,25 @@ class C02(Sim):
         path, fl = ev["path"], ev["flavour"]
         s = self.spec
         if path == "raw_class":
-            d = self._fill_raw(fl, ev.get("peek"))
+            d = self._fill_raw(fl, ev.get("peek"), ev.get("reuse"))
             cls = getattr(M.mesh, normal.class_name)
             return call(cls, d)
         if path == "instanciate":
-            d = self._fill_raw(fl, ev.get("peek"))
+            d = self._fill_raw(fl, ev.get("peek"), ev.get("reuse"))
             return call(M.mesh.mesh._instanciate_raw_mesh_data, d)
+        if path == "two_stage":
+            # construction in two stages: the surface part is built first, the finished mesh is wrapped again, the cells are added, and
+            # the whole is built again ("building again from an already built mesh", with more data)
+            from mouette.mesh.mesh_data import RawMeshData
+            self.probes["two_stage_build"] += 1
+
+            def two_stage():
+                d1 = self._fill_raw(fl, None, False, only="no_cells")
+                m1 = M.mesh.mesh._instanciate_raw_mesh_data(d1)
+                d2 = RawMeshData(m1)
+                d2.cells += rows(s["cells"], fl)
+                return M.mesh.mesh._instanciate_raw_mesh_data(d2)
+            return call(two_stage)
         if path == "from_arrays":
             self.probes["from_arrays_path"] += 1
             V = np.array(s["points"], dtype=float)
